@@ -47,6 +47,7 @@ type Fault struct {
 type TreeScript struct {
 	Prop       string  `json:"prop"`
 	CountJudge bool    `json:"count_judge,omitempty"` // C16: tasks use Insert/Delete/lookups/GetChangeCount only and the counts are judged
+	SaveJudge  bool    `json:"save_judge,omitempty"`  // C16: tasks use Insert/Delete/lookups/saves only; every save goes to a store of its own and is judged
 	Scribble   bool    `json:"scribble,omitempty"`    // the harness edits every value a lookup returned, after judging it
 	Store      string  `json:"store"`                 // mem | lvlmem | lvlp | p | lvlpp
 	Cache      string  `json:"cache"`                 // own | shared
